@@ -265,6 +265,12 @@ mod real {
             "disk.get.expired.before_remove" => 'F',
             "disk.get.before_read" => 'G',
             "disk.get.before_touch" => 'H',
+            "ml.layer.after_get" => 'I',
+            "ml.layer.after_put" => 'J',
+            "ml.layer.after_put_with_ttl" => 'K',
+            "ml.layer.after_contains" => 'N',
+            "ml.layer.after_remove" => 'R',
+            "ml.layer.after_clear" => 'Z',
             _ => '?',
         }
     }
@@ -573,6 +579,15 @@ mod real {
     /// Step `nt` parked workers until all have finished. `choose(step, alive)` names the next
     /// thread (it may name a finished one: skipped) or asks for the drain (lowest live first).
     pub fn drive(ctl: &Ctl, nt: usize, choose: &mut dyn FnMut(usize, &[usize]) -> Choice) -> Drive {
+        drive_sticky(ctl, nt, "", choose)
+    }
+
+    /// As `drive`; a thread that has just stopped at one of the `sticky` sites takes the next
+    /// step as well (the chooser is offered that thread only), so the enumerators do not switch
+    /// threads there. An explicit schedule may still name any thread at any step, and the drain
+    /// is the same lowest-live-thread-first order as the model's.
+    pub fn drive_sticky(ctl: &Ctl, nt: usize, sticky: &str, choose: &mut dyn FnMut(usize, &[usize]) -> Choice) -> Drive {
+        let mut last: Option<usize> = None;
         let mut out = Drive { sched: String::new(), trace: String::new(), drain: String::new(), steps: vec![], alive: vec![], timeout: false, stuck: None };
         let mut opidx = vec![0usize; nt];
         let mut draining = false;
@@ -583,18 +598,22 @@ mod real {
                 out.timeout = true;
                 break;
             };
-            let alive: Vec<usize> = (0..nt).filter(|i| matches!(st[*i], WState::Parked(_))).collect();
-            if alive.is_empty() {
+            let alive_all: Vec<usize> = (0..nt).filter(|i| matches!(st[*i], WState::Parked(_))).collect();
+            if alive_all.is_empty() {
                 break;
             }
+            let alive: Vec<usize> = match last {
+                Some(l) if matches!(st[l], WState::Parked(c) if sticky.contains(c)) => vec![l],
+                _ => alive_all.clone(),
+            };
             let tid = if draining {
-                alive[0]
+                alive_all[0]
             } else {
                 match choose(step_no, &alive) {
                     Choice::Tid(t) => t,
                     Choice::Drain => {
                         draining = true;
-                        alive[0]
+                        alive_all[0]
                     }
                 }
             };
@@ -611,6 +630,7 @@ mod real {
                 _ => '?',
             };
             out.alive.push(alive.clone());
+            last = Some(tid);
             ctl.release(tid);
             let Some(st2) = ctl.settle() else {
                 out.timeout = true;
@@ -2565,6 +2585,691 @@ mod real {
         }
     }
 
+    // ------------------------------------------------------------------ MultiLayerCacheImpl under the controller
+    //
+    //   mlrun layers=mm|md pre=<ops> t=<ops>|<ops>[|<ops>] s=<digits>
+    //   -> pre=<answers> r=<answers>|… tr=<sites>/<drain> l0=<entry_count>/<bytes>/<contents>
+    //      l1=<entry_count>/<bytes>/<contents> tk=<tracked_entries>
+    // ops: g<k> get, c<k> contains, r<k> remove, z clear, p<k>:<hex> put (layer 0 + promotion
+    // tracker), u<k>:<hex> = put_to_layer(k, v, 0) ("upper"), l<k>:<hex> = put_to_layer(k, v, 1)
+    // ("lower"). The cache is a real MultiLayerCacheImpl<RibbitKey> over two MemoryCache layers
+    // (mm) or a MemoryCache above a DiskCache (md; oracle only, the answer line is the constant
+    // `oracle-only`). Its per-layer calls stop at the mem.* / disk.* schedule points of the layer
+    // they are in and, on return from the layer, at `ml.layer.after_<op>` (hooks commit 8d88dc1),
+    // so an operation is cut between two layers and between a layer and the promotion tracker.
+    // The layers' background tasks are spawned on a paused-clock runtime nobody drives: they
+    // never run.
+    //
+    // Oracle (implementation only): no operation fails; every get answer and every value found in
+    // a layer at quiescence was written for that key; per layer entry_count / memory_usage = the
+    // contents found; the answers and the final contents OF EVERY LAYER are explained by a
+    // sequential order (consistent with real-time order) of atomic operations on the layered map
+    // (put writes layer 0, put_to_layer its layer, get / contains look from the top, remove and
+    // clear empty every layer); directly: a key whose last writer finished before a remove of it
+    // / a clear began is in no layer at quiescence (`ml-removed-key-still-stored`).
+
+    #[derive(Clone, Debug, PartialEq)]
+    pub enum MOp {
+        Get(usize),
+        Contains(usize),
+        Put(usize, Vec<u8>),
+        Remove(usize),
+        Clear,
+        /// put_to_layer(key, value, layer)
+        PutTo(usize, Vec<u8>, usize),
+    }
+
+    const ML_LAYERS: usize = 2;
+    /// The enumerators of this section do not switch threads between the two counter updates of
+    /// a layer operation (sites: before memory_usage in put-new / remove / clear / the expired
+    /// paths): every interleaving of those is enumerated on the MemoryCache alone (sections A-C);
+    /// here the schedule budget goes to the map accesses, the layer boundaries and the tracker.
+    const ML_STICKY: &str = "kmocf";
+
+    impl MOp {
+        fn tok(&self) -> String {
+            match self {
+                MOp::Get(k) => format!("g{k}"),
+                MOp::Contains(k) => format!("c{k}"),
+                MOp::Remove(k) => format!("r{k}"),
+                MOp::Clear => "z".into(),
+                MOp::Put(k, v) => format!("p{k}:{}", hex(v)),
+                MOp::PutTo(k, v, l) => format!("{}{k}:{}", if *l == 0 { 'u' } else { 'l' }, hex(v)),
+            }
+        }
+        fn parse(t: &str) -> Option<MOp> {
+            let (c, r) = (t.chars().next()?, &t[1..]);
+            match c {
+                'g' => r.parse().ok().filter(|k| *k < NKEYS).map(MOp::Get),
+                'c' => r.parse().ok().filter(|k| *k < NKEYS).map(MOp::Contains),
+                'r' => r.parse().ok().filter(|k| *k < NKEYS).map(MOp::Remove),
+                'z' if r.is_empty() => Some(MOp::Clear),
+                'p' | 'u' | 'l' => {
+                    let (k, h) = r.split_once(':')?;
+                    let k: usize = k.parse().ok().filter(|k| *k < NKEYS)?;
+                    if h.contains(':') {
+                        return None;
+                    }
+                    let v = unhex(h)?;
+                    Some(match c {
+                        'p' => MOp::Put(k, v),
+                        'u' => MOp::PutTo(k, v, 0),
+                        _ => MOp::PutTo(k, v, 1),
+                    })
+                }
+                _ => None,
+            }
+        }
+        fn key(&self) -> Option<usize> {
+            match self {
+                MOp::Get(k) | MOp::Contains(k) | MOp::Remove(k) | MOp::Put(k, _) | MOp::PutTo(k, _, _) => Some(*k),
+                MOp::Clear => None,
+            }
+        }
+        fn writes(&self) -> Option<(usize, &Vec<u8>, usize)> {
+            match self {
+                MOp::Put(k, v) => Some((*k, v, 0)),
+                MOp::PutTo(k, v, l) => Some((*k, v, *l)),
+                _ => None,
+            }
+        }
+    }
+
+    fn mops_str(ops: &[MOp]) -> String {
+        if ops.is_empty() { "-".into() } else { ops.iter().map(MOp::tok).collect::<Vec<_>>().join(",") }
+    }
+
+    fn parse_mops(s: &str) -> Option<Vec<MOp>> {
+        if s == "-" {
+            return Some(vec![]);
+        }
+        s.split(',').map(MOp::parse).collect()
+    }
+
+    #[derive(Clone, Debug)]
+    pub struct MCase {
+        /// layer 1 is a DiskCache (oracle only)
+        disk: bool,
+        pre: Vec<MOp>,
+        progs: Vec<Vec<MOp>>,
+    }
+
+    impl MCase {
+        fn line(&self, sched: &str) -> String {
+            format!(
+                "mlrun layers={} pre={} t={} s={}",
+                if self.disk { "md" } else { "mm" },
+                mops_str(&self.pre),
+                self.progs.iter().map(|p| mops_str(p)).collect::<Vec<_>>().join("|"),
+                if sched.is_empty() { "-" } else { sched }
+            )
+        }
+        fn parse(line: &str) -> Option<(MCase, Vec<usize>)> {
+            let t: Vec<&str> = line.split(' ').filter(|x| !x.is_empty()).collect();
+            if t.len() != 5 || t[0] != "mlrun" {
+                return None;
+            }
+            let disk = match t[1].strip_prefix("layers=")? {
+                "mm" => false,
+                "md" => true,
+                _ => return None,
+            };
+            let pre = parse_mops(t[2].strip_prefix("pre=")?)?;
+            let progs: Option<Vec<Vec<MOp>>> = t[3].strip_prefix("t=")?.split('|').map(parse_mops).collect();
+            let progs = progs?;
+            let s = t[4].strip_prefix("s=")?;
+            let sched: Option<Vec<usize>> =
+                if s == "-" { Some(vec![]) } else { s.chars().map(|c| c.to_digit(10).map(|d| d as usize)).collect() };
+            if progs.len() > 9 {
+                return None;
+            }
+            Some((MCase { disk, pre, progs }, sched?))
+        }
+    }
+
+    type MlCache = cascette_cache::MultiLayerCacheImpl<RibbitKey>;
+
+    async fn mexec(cache: &MlCache, op: &MOp) -> String {
+        use cascette_cache::traits::MultiLayerCache;
+        let unit = |r: cascette_cache::CacheResult<()>| if r.is_ok() { "ok".to_string() } else { "err".to_string() };
+        let flag = |r: cascette_cache::CacheResult<bool>| match r {
+            Ok(true) => "t".to_string(),
+            Ok(false) => "f".to_string(),
+            Err(_) => "err".to_string(),
+        };
+        match op {
+            MOp::Get(k) => match cache.get(&key(*k)).await {
+                Ok(Some(b)) => format!("v{}", hex(&b)),
+                Ok(None) => "none".into(),
+                Err(_) => "err".into(),
+            },
+            MOp::Contains(k) => flag(cache.contains(&key(*k)).await),
+            MOp::Remove(k) => flag(cache.remove(&key(*k)).await),
+            MOp::Clear => unit(cache.clear().await),
+            MOp::Put(k, v) => unit(cache.put(key(*k), Bytes::from(v.clone())).await),
+            MOp::PutTo(k, v, l) => unit(cache.put_to_layer(key(*k), Bytes::from(v.clone()), *l).await),
+        }
+    }
+
+    /// what one layer holds at quiescence: its books and the value `get_from_layer` finds per key
+    #[derive(Clone, Debug, Default, PartialEq)]
+    pub struct MLayer {
+        n: u64,
+        b: u64,
+        contents: BTreeMap<usize, Vec<u8>>,
+        /// probe gets that failed
+        errs: Vec<usize>,
+    }
+
+    #[derive(Debug)]
+    pub struct MOutcome {
+        pre: Vec<String>,
+        results: Vec<Vec<String>>,
+        d: Drive,
+        layers: Vec<MLayer>,
+        tracked: u64,
+    }
+
+    impl MOutcome {
+        fn response(&self, case: &MCase) -> String {
+            if case.disk {
+                return "oracle-only".into();
+            }
+            if self.d.timeout {
+                return "timeout".into();
+            }
+            let j = |v: &Vec<String>| if v.is_empty() { "-".to_string() } else { v.join(",") };
+            let lay = |l: &MLayer| {
+                let m = if l.contents.is_empty() { "-".to_string() } else { l.contents.iter().map(|(k, v)| format!("{k}:{}", hex(v))).collect::<Vec<_>>().join(",") };
+                format!("{}/{}/{m}", l.n, l.b)
+            };
+            format!(
+                "pre={} r={} tr={}/{} {} tk={}",
+                j(&self.pre),
+                self.results.iter().map(j).collect::<Vec<_>>().join("|"),
+                self.d.trace,
+                self.d.drain,
+                self.layers.iter().enumerate().map(|(i, l)| format!("l{i}={}", lay(l))).collect::<Vec<_>>().join(" "),
+                self.tracked
+            )
+        }
+    }
+
+    pub fn mexecute(case: &MCase, choose: &mut dyn FnMut(usize, &[usize]) -> Choice) -> MOutcome {
+        use cascette_cache::config::MultiLayerCacheConfig;
+        use cascette_cache::traits::MultiLayerCache;
+        let dir = if case.disk { Some(scratch_dir()) } else { None };
+        let mem = || {
+            let mut c = MemoryCacheConfig::new().with_max_entries(1000).with_eviction_policy(EvictionPolicy::Lru);
+            c.max_memory_bytes = None;
+            c.default_ttl = Some(LONG);
+            c.cleanup_interval = LONG;
+            c
+        };
+        let mut mc = MultiLayerCacheConfig::new().add_memory_layer(mem());
+        mc = match &dir {
+            Some(d) => {
+                let mut c = DiskCacheConfig::new(d.path()).with_max_files(1000).with_subdirectories(false, 0);
+                c.default_ttl = Some(LONG);
+                c.cleanup_interval = LONG;
+                c.sync_interval = LONG;
+                mc.add_disk_layer(c)
+            }
+            None => mc.add_memory_layer(mem()),
+        };
+        // the layers spawn their cleanup / sync tasks at construction: on a runtime with a paused
+        // clock that nobody drives, so the tasks exist (as in production) but never run
+        let bg = tokio::runtime::Builder::new_current_thread().enable_all().start_paused(true).build().expect("rt");
+        let cache: Arc<MlCache> = {
+            let _g = bg.enter();
+            Arc::new(MlCache::new(mc).expect("config"))
+        };
+        let rt = tokio::runtime::Builder::new_current_thread().build().expect("rt");
+        inflight("ml", case.line(""), "pre-operations");
+        let mut pre = vec![];
+        for op in &case.pre {
+            advance_clocks();
+            pre.push(rt.block_on(mexec(&cache, op)));
+        }
+        advance_clocks();
+        let nt = case.progs.len();
+        let ctl = Arc::new(Ctl::new(nt));
+        let results: Arc<Mutex<Vec<Vec<String>>>> = Arc::new(Mutex::new(vec![vec![]; nt]));
+        let mut handles = vec![];
+        for (tid, prog) in case.progs.iter().cloned().enumerate() {
+            let (ctl, cache, results) = (ctl.clone(), cache.clone(), results.clone());
+            handles.push(std::thread::spawn(move || {
+                WORKER.with(|w| *w.borrow_mut() = Some((ctl.clone(), tid)));
+                let rt = tokio::runtime::Builder::new_current_thread().build().expect("rt");
+                for op in &prog {
+                    ctl.park(tid, 'S');
+                    let r = catch(AssertUnwindSafe(|| rt.block_on(mexec(&cache, op)))).unwrap_or_else(|_| "panic".into());
+                    results.lock().unwrap_or_else(|e| e.into_inner())[tid].push(r);
+                }
+                WORKER.with(|w| *w.borrow_mut() = None);
+                ctl.finish(tid);
+            }));
+        }
+        phase("schedule");
+        let d = drive_sticky(&ctl, nt, ML_STICKY, choose);
+        inflight("ml", case.line(&d.sched), "workers-done");
+        let mut out = MOutcome { pre, results: vec![], d, layers: vec![], tracked: 0 };
+        if out.d.timeout {
+            // stuck workers hold the cache: leave everything where it is
+            std::mem::forget(bg);
+            if let Some(d) = dir {
+                std::mem::forget(d);
+            }
+            return out;
+        }
+        for h in handles {
+            let _ = h.join();
+        }
+        out.results = results.lock().unwrap_or_else(|e| e.into_inner()).clone();
+        phase("quiescent-probes");
+        advance_clocks();
+        out.tracked = rt.block_on(cache.multi_layer_stats()).map(|s| s.tracked_entries as u64).unwrap_or(u64::MAX);
+        // the books of every layer first, then the contents layer by layer (a probe get of a
+        // memory layer only touches the entry's access stamp)
+        for l in 0..ML_LAYERS {
+            let st = rt.block_on(cache.layer_stats(l));
+            out.layers.push(MLayer { n: st.as_ref().map(|s| s.entry_count as u64).unwrap_or(u64::MAX), b: st.map(|s| s.memory_usage_bytes as u64).unwrap_or(u64::MAX), ..MLayer::default() });
+        }
+        for l in 0..ML_LAYERS {
+            for k in 0..NKEYS {
+                match rt.block_on(cache.get_from_layer(&key(k), l)) {
+                    Ok(Some(v)) => {
+                        out.layers[l].contents.insert(k, v.to_vec());
+                    }
+                    Ok(None) => {}
+                    Err(_) => out.layers[l].errs.push(k),
+                }
+            }
+        }
+        drop(cache);
+        drop(bg);
+        out
+    }
+
+    /// the layered map every multi-layer operation is atomic on
+    type MRef = Vec<BTreeMap<usize, Vec<u8>>>;
+
+    fn mref_apply(r: &mut MRef, op: &MOp, res: &str) -> bool {
+        match op {
+            MOp::Get(k) => match r.iter().find_map(|l| l.get(k)) {
+                Some(v) => res == format!("v{}", hex(v)),
+                None => res == "none",
+            },
+            MOp::Contains(k) => res == if r.iter().any(|l| l.contains_key(k)) { "t" } else { "f" },
+            MOp::Remove(k) => {
+                let mut found = false;
+                for l in r.iter_mut() {
+                    found |= l.remove(k).is_some();
+                }
+                res == if found { "t" } else { "f" }
+            }
+            MOp::Clear => {
+                for l in r.iter_mut() {
+                    l.clear();
+                }
+                res == "ok"
+            }
+            MOp::Put(k, v) => {
+                r[0].insert(*k, v.clone());
+                res == "ok"
+            }
+            MOp::PutTo(k, v, l) => {
+                r[*l].insert(*k, v.clone());
+                res == "ok"
+            }
+        }
+    }
+
+    /// Search for a sequential order that explains a multi-layer run.
+    /// `layerwise = false`: every operation is ONE atomic step on the layered map (the property).
+    /// `layerwise = true`: every operation is the sequence of its per-layer accesses, top layer
+    /// first, each atomic at its own instant inside the operation's interval (get / contains stop
+    /// at the first layer that has the key, remove / clear visit every layer, the answer of a
+    /// remove is the OR of what its per-layer removals found) — what an implementation without a
+    /// lock across the layers can promise at best.
+    struct MLin<'a> {
+        case: &'a MCase,
+        out: &'a MOutcome,
+        iv: &'a [Vec<(usize, usize)>],
+        layerwise: bool,
+    }
+
+    enum Sub {
+        Dead,
+        Next,
+        Done,
+    }
+
+    /// the access of `op` to layer `j` (`acc` = a remove has found the key in a layer above)
+    fn msub_apply(r: &mut MRef, op: &MOp, j: usize, acc: &mut bool, res: &str) -> Sub {
+        let last = j + 1 >= r.len();
+        let fin = |ok: bool| if ok { Sub::Done } else { Sub::Dead };
+        match op {
+            MOp::Get(k) => match r[j].get(k) {
+                Some(v) => fin(res == format!("v{}", hex(v))),
+                None if last => fin(res == "none"),
+                None => Sub::Next,
+            },
+            MOp::Contains(k) => {
+                if r[j].contains_key(k) {
+                    fin(res == "t")
+                } else if last {
+                    fin(res == "f")
+                } else {
+                    Sub::Next
+                }
+            }
+            MOp::Remove(k) => {
+                *acc |= r[j].remove(k).is_some();
+                if last { fin(res == if *acc { "t" } else { "f" }) } else { Sub::Next }
+            }
+            MOp::Clear => {
+                r[j].clear();
+                if last { fin(res == "ok") } else { Sub::Next }
+            }
+            MOp::Put(..) | MOp::PutTo(..) => fin(mref_apply(r, op, res)),
+        }
+    }
+
+    impl MLin<'_> {
+        /// `next[t]` = index of thread t's first operation that has not taken (all of) its effect,
+        /// `sub[t]` = (layer its next access goes to, remove-found-so-far) inside that operation
+        fn search(&self, next: &mut Vec<usize>, sub: &mut Vec<(usize, bool)>, r: &MRef) -> bool {
+            let nt = self.case.progs.len();
+            if (0..nt).all(|t| next[t] >= self.case.progs[t].len()) {
+                return r.iter().zip(self.out.layers.iter()).all(|(a, b)| *a == b.contents);
+            }
+            for t in 0..nt {
+                let i = next[t];
+                if i >= self.case.progs[t].len() {
+                    continue;
+                }
+                let start = self.iv[t][i].0;
+                // real-time order: nothing still pending may have finished before this op began
+                if sub[t].0 == 0 && (0..nt).any(|u| u != t && next[u] < self.case.progs[u].len() && self.iv[u][next[u]].1 < start) {
+                    continue;
+                }
+                let (op, res) = (&self.case.progs[t][i], self.out.results[t][i].as_str());
+                let mut r2 = r.clone();
+                let saved = sub[t];
+                let step = if self.layerwise {
+                    let (j, mut acc) = saved;
+                    let st = msub_apply(&mut r2, op, j, &mut acc, res);
+                    sub[t] = (j + 1, acc);
+                    st
+                } else if mref_apply(&mut r2, op, res) {
+                    Sub::Done
+                } else {
+                    Sub::Dead
+                };
+                let ok = match step {
+                    Sub::Dead => false,
+                    Sub::Next => self.search(next, sub, &r2),
+                    Sub::Done => {
+                        next[t] += 1;
+                        sub[t] = (0, false);
+                        let ok = self.search(next, sub, &r2);
+                        next[t] -= 1;
+                        ok
+                    }
+                };
+                sub[t] = saved;
+                if ok {
+                    return true;
+                }
+            }
+            false
+        }
+        fn explains(&self, r0: &MRef) -> bool {
+            let nt = self.case.progs.len();
+            self.search(&mut vec![0usize; nt], &mut vec![(0usize, false); nt], r0)
+        }
+    }
+
+    fn moracle(case: &MCase, out: &MOutcome) -> Vec<(String, String)> {
+        let mut fails: Vec<(String, String)> = vec![];
+        if out.d.timeout {
+            let msg = match out.d.stuck {
+                Some((tid, op, site)) => format!(
+                    "thread {tid}, released from schedule point `{site}` inside its operation {op} ({}), neither reached the next schedule point nor finished within the watchdog time: it waits for something a parked thread holds (or for itself)",
+                    case.progs.get(tid).and_then(|p| p.get(op)).map(MOp::tok).unwrap_or_else(|| "?".into())
+                ),
+                None => "the workers did not reach their first schedule point within the watchdog time".into(),
+            };
+            return vec![("ml-schedule-stuck".into(), msg)];
+        }
+        let mut iv: Vec<Vec<(usize, usize)>> = case.progs.iter().map(|p| vec![(usize::MAX, 0); p.len()]).collect();
+        for (i, s) in out.d.steps.iter().enumerate() {
+            if s.op < iv[s.tid].len() {
+                let e = &mut iv[s.tid][s.op];
+                e.0 = e.0.min(i);
+                e.1 = e.1.max(i);
+            }
+        }
+        let mut ops: Vec<(usize, usize, &MOp, (usize, usize))> = vec![];
+        for (t, p) in case.progs.iter().enumerate() {
+            for (i, op) in p.iter().enumerate() {
+                ops.push((t, i, op, iv[t][i]));
+            }
+        }
+        let clear_overlap = ops.iter().any(|(t, _, o, a)| matches!(o, MOp::Clear) && ops.iter().any(|(u, _, _, b)| u != t && overlap(*a, *b)));
+        // no operation fails
+        for (t, rs) in out.results.iter().enumerate() {
+            for (i, r) in rs.iter().enumerate() {
+                if r == "err" || r == "panic" {
+                    fails.push(("ml-op-failed".into(), format!("thread {t} op {i} ({}) answered {r}", case.progs[t][i].tok())));
+                }
+            }
+        }
+        for (l, lay) in out.layers.iter().enumerate() {
+            for k in &lay.errs {
+                fails.push(("ml-op-failed".into(), format!("at quiescence get_from_layer(key {k}, layer {l}) failed")));
+            }
+        }
+        // provenance: answers and what the layers hold
+        let mut written: BTreeMap<usize, Vec<Vec<u8>>> = BTreeMap::new();
+        for op in case.pre.iter().chain(case.progs.iter().flatten()) {
+            if let Some((k, v, _)) = op.writes() {
+                written.entry(k).or_default().push(v.clone());
+            }
+        }
+        let wrote = |k: usize, v: &[u8]| written.get(&k).is_some_and(|w| w.iter().any(|x| x == v));
+        for (t, rs) in out.results.iter().enumerate() {
+            for (i, r) in rs.iter().enumerate() {
+                if let (MOp::Get(k), Some(h)) = (&case.progs[t][i], r.strip_prefix('v')) {
+                    if !unhex(h).is_some_and(|v| wrote(*k, &v)) {
+                        fails.push(("ml-get-unwritten-value".into(), format!("thread {t} get {k} answered {r}, which no put wrote for that key")));
+                    }
+                }
+            }
+        }
+        for (l, lay) in out.layers.iter().enumerate() {
+            for (k, v) in &lay.contents {
+                if !wrote(*k, v) {
+                    fails.push(("ml-get-unwritten-value".into(), format!("at quiescence layer {l} holds {} under key {k}, which no put wrote for that key", hex(v))));
+                }
+            }
+        }
+        // books of every layer at quiescence
+        for (l, lay) in out.layers.iter().enumerate() {
+            let total: u64 = lay.contents.values().map(|v| v.len() as u64).sum();
+            if lay.n != lay.contents.len() as u64 || lay.b != total {
+                let sig = if clear_overlap { "mem-clear-races-put" } else { "ml-layer-books-quiescent" };
+                fails.push((sig.into(), format!("at quiescence layer {l} reports entry_count={} memory_usage={} but holds {} entries of {} bytes", lay.n, lay.b, lay.contents.len(), total)));
+            }
+        }
+        // a removed / cleared key is in no layer once everybody has finished: every writer of the
+        // key had finished before the remove / clear began
+        for (_, _, o, a) in &ops {
+            let ks: Vec<usize> = match o {
+                MOp::Remove(k) => vec![*k],
+                MOp::Clear => (0..NKEYS).collect(),
+                _ => continue,
+            };
+            for k in ks {
+                let late_writer = ops.iter().any(|(_, _, o2, b)| o2.writes().is_some_and(|w| w.0 == k) && b.1 >= a.0);
+                if late_writer {
+                    continue;
+                }
+                for (l, lay) in out.layers.iter().enumerate() {
+                    if let Some(v) = lay.contents.get(&k) {
+                        fails.push(("ml-removed-key-still-stored".into(), format!("{} ran after every write of key {k} had finished, yet at quiescence layer {l} still holds {} under it", o.tok(), hex(v))));
+                    }
+                }
+            }
+        }
+        // every operation takes effect at one instant: linearizability on the layered map. A run
+        // in which an eviction removed an entry is not searched (max_entries is 1000: it only
+        // happens after a layer's entry_count has underflowed, finding mem-clear-races-put /
+        // corpus underflow-evicts-everything: the cache forgets entries then)
+        let complete = out.results.iter().zip(case.progs.iter()).all(|(r, p)| r.len() == p.len());
+        let failed = out.results.iter().flatten().chain(out.pre.iter()).any(|r| r == "err" || r == "panic");
+        let evicted = out.d.steps.iter().any(|s| s.after == 's');
+        if complete && !failed && !evicted {
+            let mut r0: MRef = vec![BTreeMap::new(); ML_LAYERS];
+            for (op, res) in case.pre.iter().zip(out.pre.iter()) {
+                if !mref_apply(&mut r0, op, res) {
+                    fails.push(("ml-sequential-answer".into(), format!("pre op {} (run alone) answered {res}", op.tok())));
+                }
+            }
+            if !(MLin { case, out, iv: &iv, layerwise: false }).explains(&r0) {
+                // not atomic. Is it at least what per-layer atomicity allows (no lock across the
+                // layers: finding ml-not-atomic-across-layers)? Anything else is new.
+                let layerwise = (MLin { case, out, iv: &iv, layerwise: true }).explains(&r0);
+                let (sig, what) = if layerwise {
+                    ("ml-not-atomic-across-layers", "no sequential order of ATOMIC operations on the layered map, consistent with real-time order, explains the run (an order of their per-layer accesses, each atomic on its layer, does: the operations are not atomic across the layers)")
+                } else {
+                    ("ml-not-linearizable", "no sequential order consistent with real-time order explains the run, neither of atomic operations on the layered map nor of their per-layer accesses (top layer first, each atomic on its layer)")
+                };
+                fails.push((sig.into(), format!("{what}: answers {:?}, contents found at quiescence {:?}, start {:?}", out.results, out.layers.iter().map(|l| &l.contents).collect::<Vec<_>>(), r0)));
+            }
+        }
+        fails
+    }
+
+    impl Runner {
+        fn memit(&mut self, case: &MCase, out: &MOutcome) {
+            self.memit_line(case, out, &case.line(&out.d.sched));
+        }
+        fn memit_line(&mut self, case: &MCase, out: &MOutcome, line: &str) {
+            self.s.line(line, &out.response(case));
+            let fails = moracle(case, out);
+            let switched = out.d.steps.windows(2).any(|w| w[0].tid != w[1].tid && w[0].after != 'S' && w[0].after != 'D');
+            self.s.case(if switched { Some(line) } else { None });
+            self.s.tally(&format!("ml:layers={}", if case.disk { "memory+disk" } else { "memory+memory" }));
+            self.s.tally(&format!("ml:threads={}", case.progs.len()));
+            self.s.tally_n("ml:steps", out.d.steps.len() as u64);
+            if switched {
+                self.s.tally("ml:schedules-with-a-switch-inside-an-operation");
+            }
+            // a switch while a thread stood between two layers / between a layer and the tracker
+            if out.d.steps.windows(2).any(|w| w[0].tid != w[1].tid && "IJKNRZ".contains(w[0].after)) {
+                self.s.tally("ml:schedules-with-a-switch-between-layer-and-next-access");
+            }
+            for op in case.progs.iter().flatten() {
+                self.s.tally(&format!("ml:op:{}", &op.tok()[..1]));
+            }
+            for (sig, msg) in fails {
+                *self.known_printed.entry(sig.clone()).or_insert(0) += 1;
+                self.s.oracle_fail(&sig, &msg, &[line.to_string()]);
+            }
+            if out.d.timeout {
+                self.note_stuck();
+            }
+        }
+    }
+
+    fn mrun_all(r: &mut Runner, case: &MCase, cap: usize) -> (usize, bool) {
+        dfs(
+            &mut |ch| {
+                let out = mexecute(case, ch);
+                r.memit(case, &out);
+                (out.d.steps.iter().map(|s| s.tid).collect(), out.d.alive.clone(), out.d.timeout)
+            },
+            cap,
+        )
+    }
+
+    fn mrun_random(r: &mut Runner, rng: &mut Rng, case: &MCase) {
+        let sticky = rng.chance(1, 3);
+        let mut last = usize::MAX;
+        let mut ch = |_i: usize, alive: &[usize]| {
+            let t = if sticky && alive.contains(&last) && rng.chance(2, 3) { last } else { *rng.pick(alive) };
+            last = t;
+            Choice::Tid(t)
+        };
+        let out = mexecute(case, &mut ch);
+        r.memit(case, &out);
+    }
+
+    fn malphabet() -> Vec<MOp> {
+        vec![
+            MOp::Get(0),
+            MOp::Contains(0),
+            MOp::Put(0, vec![0xa1]),
+            MOp::Put(0, vec![0xb2, 0xb2]),
+            MOp::Remove(0),
+            MOp::Clear,
+            MOp::PutTo(0, vec![0xc3, 0xc3, 0xc3], 0),
+            MOp::PutTo(0, vec![0xd4, 0xd4, 0xd4, 0xd4], 1),
+            MOp::Get(1),
+            MOp::Put(1, vec![0xf0, 0xf0]),
+        ]
+    }
+
+    /// start states: empty; key 0 in layer 0 with a tracker; in layer 1 only (no tracker); in both
+    /// layers with different values; in layer 0 WITHOUT a tracker; in layer 1 with a tracker (a
+    /// get served it)
+    fn mpres() -> Vec<Vec<MOp>> {
+        let (a, b) = (vec![0xe5; 5], vec![0x97; 2]);
+        vec![
+            vec![],
+            vec![MOp::Put(0, a.clone())],
+            vec![MOp::PutTo(0, b.clone(), 1)],
+            vec![MOp::PutTo(0, b.clone(), 1), MOp::Put(0, a.clone())],
+            vec![MOp::PutTo(0, a, 0)],
+            vec![MOp::PutTo(0, b, 1), MOp::Get(0), MOp::Put(1, vec![0x66; 3])],
+        ]
+    }
+
+    fn mrandom_op(rng: &mut Rng) -> MOp {
+        let k = if rng.chance(3, 4) { 0 } else { rng.below(NKEYS as u64) as usize };
+        let val = |rng: &mut Rng| {
+            let n = rng.below(5) as usize;
+            vec![rng.byte(); n]
+        };
+        match rng.below(12) {
+            0..=1 => MOp::Get(k),
+            2..=3 => MOp::Contains(k),
+            4..=5 => MOp::Put(k, val(rng)),
+            6..=8 => MOp::Remove(k),
+            9 => MOp::Clear,
+            10 => MOp::PutTo(k, val(rng), 0),
+            _ => MOp::PutTo(k, val(rng), 1),
+        }
+    }
+
+    fn mrandom_case(rng: &mut Rng, nt: usize, max_ops: usize) -> MCase {
+        let mut pre = vec![];
+        for _ in 0..rng.below(4) {
+            let k = if rng.chance(1, 2) { 0 } else { rng.below(NKEYS as u64) as usize };
+            let v = vec![rng.byte(); rng.range(1, 6) as usize];
+            pre.push(match rng.below(4) {
+                0 => MOp::Put(k, v),
+                1 => MOp::PutTo(k, v, 0),
+                2 => MOp::PutTo(k, v, 1),
+                _ => MOp::Get(k),
+            });
+        }
+        let progs = (0..nt).map(|_| (0..rng.range(1, max_ops as u64)).map(|_| mrandom_op(rng)).collect()).collect();
+        MCase { disk: false, pre, progs }
+    }
+
     fn alphabet() -> Vec<Op> {
         vec![
             Op::Get(0),
@@ -2722,6 +3427,35 @@ mod real {
         r.s.extra("wall_ms_sweep", serde_json::json!(t0.elapsed().as_millis() as u64));
     }
 
+    fn ml_sections(r: &mut Runner, rng: &mut Rng, thorough: bool) {
+        let t0 = Instant::now();
+        let (alpha, pres) = (malphabet(), mpres());
+        // J. every schedule of every pair of single operations, over every start state
+        let (mut sets, mut truncated) = (0u64, 0u64);
+        for pre in &pres {
+            for a in &alpha {
+                for b in &alpha {
+                    let case = MCase { disk: false, pre: pre.clone(), progs: vec![vec![a.clone()], vec![b.clone()]] };
+                    let (_, tr) = mrun_all(r, &case, 100_000);
+                    sets += 1;
+                    truncated += tr as u64;
+                }
+            }
+        }
+        r.s.tally_n("J:ml-program-sets-1x1-all-schedules", sets);
+        r.s.extra("wall_ms_ml_J", serde_json::json!(t0.elapsed().as_millis() as u64));
+        // M. random programs, random schedules: 2-3 threads, 1-3 operations
+        let nm = if thorough { 40_000 } else { 2_000 };
+        for i in 0..nm {
+            let nt = if i % 3 == 2 { 3 } else { 2 };
+            let case = mrandom_case(rng, nt, 3);
+            mrun_random(r, rng, &case);
+        }
+        r.s.tally_n("M:ml-random-cases", nm);
+        r.s.tally_n("ml:enumerations-cut-at-cap", truncated);
+        r.s.extra("wall_ms_multilayer", serde_json::json!(t0.elapsed().as_millis() as u64));
+    }
+
     pub fn main() {
         let args = Args::parse();
         quiet_panics();
@@ -2748,6 +3482,19 @@ mod real {
                         // (so the round is repeated until a repetition fails, at most REPLAY_REPS times)
                         dyn_round(&mut r, field("seed="), field("round="), REPLAY_REPS);
                     }
+                    None if l.starts_with("mlrun ") => match MCase::parse(&l) {
+                        Some((case, sched)) => {
+                            let mut ch = |i: usize, _alive: &[usize]| if i < sched.len() { Choice::Tid(sched[i]) } else { Choice::Drain };
+                            let out = mexecute(&case, &mut ch);
+                            // keep the request line exactly as given
+                            let given: String = sched.iter().map(|d| char::from_digit(*d as u32, 10).unwrap_or('?')).collect();
+                            r.memit_line(&case, &out, &case.line(&given));
+                        }
+                        None => {
+                            r.s.line(&l, "bad-op");
+                            r.s.case(None);
+                        }
+                    },
                     None => match DCase::parse(&l) {
                         Some((case, sched)) => {
                             let mut ch = |i: usize, _alive: &[usize]| if i < sched.len() { Choice::Tid(sched[i]) } else { Choice::Drain };
@@ -2845,6 +3592,9 @@ mod real {
         }
         r.s.tally_n("F:disk-random-cases", nf);
         r.s.extra("wall_ms_disk", serde_json::json!(t1.elapsed().as_millis() as u64));
+        // ---- MultiLayerCacheImpl under the controller
+        r.s.line("mlrun layers=mx pre=- t=g0 s=-", "bad-op");
+        ml_sections(&mut r, &mut rng, args.thorough());
         // ---- DynamicContainer: concurrent write / read / remove, real threads, oracle only
         let t2 = Instant::now();
         let ng = if args.thorough() { 8_000 } else { 800 };
